@@ -579,5 +579,83 @@ func c19K8s(p *chk.Prog, r *chk.Report) {
 			return true
 		})
 		x.Check("Reconcile:applies-desired-spec", rf.Pos(), okSpec, "", "the spec applied is not the stored desired configuration")
+		// success is reported only after the write was attempted: a `return …, nil` with a desired configuration has
+		// passed CreateOrUpdate - or skips it because a record of what was *successfully* applied equals the desired
+		// spec (a record written only behind CreateOrUpdate's nil error, outside its mutate callback)
+		written := chk.GEvent(rf.ContainsPat("controllerutil.CreateOrUpdate(ETC)"))
+		noDesired := g.GPat(true, "RECV.desiredConfiguration == nil")
+		okWrite := true
+		for _, rt := range g.Returns() {
+			rr := retResults(rt)
+			if len(rr) != 2 || !rf.IsNilLit(rr[1]) {
+				continue
+			}
+			if g.Dominated(rt, chk.GOr(noDesired, written)) {
+				continue
+			}
+			// what the API server holds (just read with Get) already is the desired spec
+			fetched := func(e ast.Expr) bool {
+				for _, c := range g.FindPat("RECV.Get(_, _, &X)") {
+					if rf.SameExpr(c.Node.(*ast.CallExpr).Args[2].(*ast.UnaryExpr).X, e) {
+						return true
+					}
+				}
+				return false
+			}
+			if g.Dominated(rt, g.GPat(true, "reflect.DeepEqual(X.Spec, RECV.desiredConfiguration.Spec)", chk.H("X", fetched))) {
+				continue
+			}
+			// the cache exemption
+			okCache := false
+			for _, e := range g.DirectEdgesImplying(g.GPat(true, "reflect.DeepEqual(RECV.F.Spec, RECV.desiredConfiguration.Spec)")) {
+				cond := g.EdgeCondExpr(e.B, e.K)
+				var fld string
+				ast.Inspect(cond, func(m ast.Node) bool {
+					if b := rf.MatchNew("reflect.DeepEqual(RECV.F.Spec, RECV.desiredConfiguration.Spec)", asExpr(m)); b != nil {
+						if sel, ok := ast.Unparen(b["F"]).(*ast.Ident); ok {
+							fld = sel.Name
+						}
+					}
+					return true
+				})
+				if fld == "" || fld == "desiredConfiguration" {
+					continue
+				}
+				safe := true
+				nw := 0
+				ast.Inspect(rf.Body, func(m ast.Node) bool {
+					as, isAs := m.(*ast.AssignStmt)
+					if !isAs {
+						return true
+					}
+					for _, l := range as.Lhs {
+						if sel, isSel := ast.Unparen(l).(*ast.SelectorExpr); isSel && sel.Sel.Name == fld && isRecv(rf)(sel.X) {
+							nw++
+							inLit := false
+							for pn := p.Parent(as); pn != nil; pn = p.Parent(pn) {
+								if _, isL := pn.(*ast.FuncLit); isL {
+									inLit = true
+								}
+							}
+							sites := g.Find(func(k ast.Node) bool { return k == ast.Node(as) })
+							if inLit || len(sites) != 1 || !g.Dominated(sites[0], g.GErrNil(true, "controllerutil.CreateOrUpdate(ETC)")) {
+								safe = false
+							}
+						}
+					}
+					return true
+				})
+				if safe && nw > 0 {
+					okCache = true
+				}
+			}
+			if !okCache {
+				okWrite = false
+				x.Fail("Reconcile:success-needs-write", rt.Pos(), "Reconcile can report success for a desired configuration without having written it (a shortcut on a record that is set before the write is known to have succeeded): after a failed write the retry does nothing and the latest configuration is never applied")
+			}
+		}
+		if okWrite {
+			x.OK("Reconcile:success-needs-write", rf.Pos(), "")
+		}
 	}
 }
